@@ -1235,6 +1235,12 @@ public:
     }
     else if_constexpr_named(cond2, detail::rlbox_is_tainted_v<T_Rhs>)
     {
+      // function pointers can only be stored in fields of a compatible
+      // function pointer type
+      static_assert(
+        !detail::is_func_ptr_v<T> ||
+          std::is_assignable_v<T&, detail::rlbox_remove_wrapper_t<T_Rhs>>,
+        "Trying to assign function pointer to field of incompatible types");
       using namespace detail;
       convert_type_non_class<T_Sbx,
                              adjust_type_direction::TO_SANDBOX,
@@ -1246,6 +1252,12 @@ public:
     }
     else if_constexpr_named(cond3, detail::rlbox_is_tainted_volatile_v<T_Rhs>)
     {
+      // function pointers can only be stored in fields of a compatible
+      // function pointer type
+      static_assert(
+        !detail::is_func_ptr_v<T> ||
+          std::is_assignable_v<T&, detail::rlbox_remove_wrapper_t<T_Rhs>>,
+        "Trying to assign function pointer to field of incompatible types");
       using namespace detail;
       convert_type_non_class<T_Sbx,
                              adjust_type_direction::NO_CHANGE,
